@@ -49,6 +49,7 @@ func cmdRun(args []string) {
 	workers := fs.Int("j", runtime.NumCPU(), "workers")
 	perm := fs.Bool("perm", false, "permute range order")
 	permCall := fs.Bool("permcall", false, "fresh permutation per range call")
+	permCoarse := fs.Bool("permcoarse", false, "coarse permutations for large maps")
 	sched := fs.String("sched", "", "join|interleave")
 	sw := fs.Int("switches", 3, "max context switches")
 	races := fs.Bool("races", false, "race detection")
@@ -64,7 +65,7 @@ func cmdRun(args []string) {
 	}
 	fmt.Printf("load+ssa %.1fs\n", w.loadS)
 	spec := RunSpec{Name: *entry, Pkg: "github.com/go-kid/ioc/" + *pkg, Entry: *entry, Params: map[string]int{},
-		Opts: ExecOpts{PermuteRange: *perm, PermutePerCall: *permCall, Sched: *sched, MaxSwitches: *sw, Races: *races, Termination: *term, MaxSteps: *steps}}
+		Opts: ExecOpts{PermuteRange: *perm, PermutePerCall: *permCall, PermuteCoarse: *permCoarse, Sched: *sched, MaxSwitches: *sw, Races: *races, Termination: *term, MaxSteps: *steps}}
 	if *pkg == "" {
 		spec.Pkg = "github.com/go-kid/ioc"
 	}
